@@ -125,6 +125,9 @@ def run(ctx):
     guards.require(res.get("stats", {}).get("state_read_fault_rejected", 0) > 20 or ctx.violations,
                    "only %s block applications met an injected read fault" % res.get("stats", {}).get("state_read_fault_rejected"))
     ctx.coverage["read_fault_attempts"] = res.get("stats", {}).get("state_read_fault_attempts", 0)
+    for o in (res.get("stats", {}).get("observations") or [])[:5]:
+        # a fault-free retry that FAILS after a failed block application stores no root: outside what C01 states
+        print("OBSERVATION: property=%s %s" % (ctx.prop, o), flush=True)
     ctx.coverage["behaviours_state"] = len(sbeh)
     ctx.coverage["blocks_finalised"] = res.get("steps", 0)
 
